@@ -30,7 +30,7 @@ CHECKS = {
     "C04": dict(
         level="model_checking",
         technique="explicit-state breadth-first search (stateright) whose transition function is the real HashMapContext API run in lock-step with an abstract map model; plus unmerged depth-3 histories",
-        text="All reachable abstract states of a HashMapContext over 2 names x 15 values (incl. 1.0, 0.0, -0.0, NaN and a string spelling a variable name) x 2 function slots x the builtin switch, every operation in every state (set_value, expression assignments with all 9 assignment operators, clears, set_function, switch, clone), return value and full observation compared with the model after each transition; closed sub-machine to closure, op-assign machine to the fixpoint of a magnitude box (thorough). This is the finite-state protocol case model checking is made for.",
+        text="All reachable abstract states of a HashMapContext over 2 names x 15 values (incl. 1.0, 0.0, -0.0, NaN and a string spelling a variable name) x 2 function slots x the builtin switch, every operation in every state (set_value, expression assignments with all 9 assignment operators, clears, set_function, switch, clone), return value and full observation compared with the model after each transition; closed sub-machine to closure, op-assign machine to the fixpoint of a magnitude box (thorough). This is the finite-state protocol case model checking is made for. Plus every history of <= 4 / 5 operations (call in three ways, clone, clone_from) over up to three contexts holding a stateful user function (a counter its Clone deep-copies) against one counter per context.",
         note="Trusted: the abstract map model (RCtx in mc/src/refmodel/interp.rs); state merging by observation (hidden state is covered by the unmerged-history pass to its depth only).",
         design_ref="DESIGN.md section 4, C04",
     ),
@@ -65,7 +65,7 @@ CHECKS = {
     "C09": dict(
         level="model_checking",
         technique="explicit enumeration of all configuration histories (switch / clone / clear / define) up to a depth from an empty context x 69 names x 36 call forms, against a reference resolution model",
-        text="For every builtin name and 17 non-builtin names (incl. near-builtin names differing in letter case, namespace or one character), every history of up to 4 (quick) / 5 (thorough) operations over disable, enable, clone, clone_from, clear_functions, clear_variables, define function, define failing function, bind variable, plus the two fixed-policy contexts; 36 call forms (incl. `n\"ab\"` without a gap) evaluated in each configuration through Node::eval_with_context and through Node::eval_with_context_mut on a clone, with the user function recording its argument. The configuration matrix is finite and is enumerated completely (guarded: all 8 switch x function x variable combinations reached for every name). 24 further names of unusual lexical classes (digits and underscores only, leading digit, non-ASCII symbols, primes, combining marks, invisible non-space characters, ASCII punctuation that is no operator).",
+        text="For every builtin name and 17 non-builtin names (incl. near-builtin names differing in letter case, namespace or one character), every history of up to 4 (quick) / 5 (thorough) operations over disable, enable, clone, clone_from, clear_functions, clear_variables, define function, define failing function, bind variable, plus the two fixed-policy contexts; 36 call forms (incl. `n\"ab\"` without a gap) evaluated in each configuration through Node::eval_with_context and through Node::eval_with_context_mut on a clone, with the user function recording its argument. The configuration matrix is finite and is enumerated completely (guarded: all 8 switch x function x variable combinations reached for every name). 24 further names of unusual lexical classes (digits and underscores only, leading digit, non-ASCII symbols, primes, combining marks, invisible non-space characters, ASCII punctuation that is no operator). The clone_from target holds its own user function and variable named n.",
         note="Trusted: reference resolution order (context function, then builtin if enabled, else unknown) and the C10 builtin table for builtin results.",
         design_ref="DESIGN.md section 4, C09",
     ),
@@ -79,14 +79,14 @@ CHECKS = {
     "C11": dict(
         level="model_checking",
         technique="exhaustive program enumeration x contexts; shared-context, mutable-on-clone and no-storage evaluations of each program compared with each other and with a reference interpreter in immutable / mutable / no-storage mode",
-        text="All programs up to 2 (quick) / 3 (thorough) operator nodes of the C08 alphabet in 4 contexts: eval_with_context (tree and string), eval_with_context_mut on a clone, on a context with the default set_value, and on the two empty contexts; direct differential for assignment-free programs (untyped and all 7 typed views), a context with variables named like the program's own source text, projection to ContextNotMutable otherwise, context observation before and after. Plus 8 context configurations (builtin switch on/off x a user function shadowing a builtin x a variable bound or not) x 26 assignment-free sources calling builtins: the shared form on the original equals the mutable form on a context constructed the same way, on a clone and on a clone of a clone, and switch and variables are unchanged everywhere; in the enumeration the mutable run is repeated on a second context constructed the same way (the crate's Clone does not define the expectation).",
+        text="All programs up to 2 (quick) / 3 (thorough) operator nodes of the C08 alphabet in 4 contexts: eval_with_context (tree and string), eval_with_context_mut on a clone, on a context with the default set_value, and on the two empty contexts; direct differential for assignment-free programs (untyped and all 7 typed views), a context with variables named like the program's own source text, projection to ContextNotMutable otherwise, context observation before and after. Plus 8 context configurations (builtin switch on/off x a user function shadowing a builtin x a variable bound or not) x 26 assignment-free sources calling builtins: the shared form on the original equals the mutable form on a context constructed the same way, on a clone and on a clone of a clone, and switch and variables are unchanged everywhere; in the enumeration the mutable run is repeated on a second context constructed the same way (the crate's Clone does not define the expectation). A used context overwritten by clone_from is a fifth form of 'the same context'.",
         note="Trusted: the reference interpreter; an immutable op-assign whose read or operator would fail may report either error.",
         design_ref="DESIGN.md section 4, C11",
     ),
     "C12": dict(
         level="model_checking",
         technique="exhaustive enumeration of token sequences x 13 contexts x all 48 entry points + build_operator_tree; each typed result compared with the projection of the untyped one, tree level with string level, context-free with fresh context, repeated runs",
-        text="Every token sequence up to 4 (quick) / 5 (thorough) tokens over an alphabet reaching all six result types and every error stage, in 13 contexts (incl. one holding variables named like the source text itself), through all 24 string-level entry points (twice), all 24 Node methods and build_operator_tree; sequences up to 4 tokens also written without spaces where the reference lexer reads the same tokens. A copy-paste slip in any wrapper shows on the first input whose untyped result distinguishes it; all value types and errors occur (guarded). Expected-type errors are written as struct literals (the crate's constructor helpers do not define the expectation); results of every size 0..=300 / 0..=1100 (strings, tuples, nested) go through every entry point.",
+        text="Every token sequence up to 4 (quick) / 5 (thorough) tokens over an alphabet reaching all six result types and every error stage, in 13 contexts (incl. one holding variables named like the source text itself), through all 24 string-level entry points (twice), all 24 Node methods and build_operator_tree; sequences up to 4 tokens also written without spaces where the reference lexer reads the same tokens. A copy-paste slip in any wrapper shows on the first input whose untyped result distinguishes it; all value types and errors occur (guarded). Expected-type errors are written as struct literals (the crate's constructor helpers do not define the expectation); results of every size 0..=300 / 0..=1100 (strings, tuples, nested) go through every entry point. The untyped tree-level forms are also evaluated on a clone of the tree and on a used tree overwritten by clone_from.",
         note="Trusted: the projection rules written from the property statement.",
         design_ref="DESIGN.md section 4, C12",
     ),
@@ -100,7 +100,7 @@ CHECKS = {
     "C14": dict(
         level="exploration",
         technique="exhaustive enumeration of ASTs and sequence shapes with identifiers in every position; 5+5 iterators against the AST's occurrence list; every name swap through the mutable iterators and the context",
-        text="All ASTs up to 3 (quick) / 4 (thorough) operator nodes plus sequence-shaped ASTs (n-ary nodes, absent elements, `()`, nesting): iterator output equals the source-order occurrence list by class, mutable variants visit the same, unknown-identifier errors name listed identifiers, and every swap of two variable or function names (or with a fresh name) commutes with evaluation. ASTs with <= 2 operators are also read from layout variants (each white-space character, an inline comment, a line comment as the separator): same identifier lists.",
+        text="All ASTs up to 3 (quick) / 4 (thorough) operator nodes plus sequence-shaped ASTs (n-ary nodes, absent elements, `()`, nesting): iterator output equals the source-order occurrence list by class, mutable variants visit the same, unknown-identifier errors name listed identifiers, and every swap of two variable or function names (or with a fresh name) commutes with evaluation. ASTs with <= 2 operators are also read from layout variants (each white-space character, an inline comment, a line comment as the separator): same identifier lists. The iterators are also checked on a clone of the tree and on six used trees overwritten by clone_from.",
         note="Trusted: occurrence list from the generating AST; ASTs whose tree differs are skipped here (guarded to be zero) and belong to C02/C05.",
         design_ref="DESIGN.md section 4, C14",
     ),
@@ -115,7 +115,7 @@ CHECKS = {
         level="model_checking",
         technique="depth-first search over token/character prefixes encoded as RON strings and decoded as Node, and over API histories of HashMapContext serialized and deserialized with ron; oracle build_operator_tree / the context itself",
         engine="evx-mc-serde",
-        text="Every token sequence up to 5 (quick) / 6 (thorough) tokens and every hostile character string up to 4 / 5 characters through ron encode -> Node decode (Ok trees equal, Err messages equal), and every context reachable by histories of depth 2 / 3 over set_value (3 names x 28 values of all types incl. signed zero, subnormals, infinities, NaN, nested tuples, hostile strings), clear, set_function, switch, expression assignments: same variables bit-exactly, same switch, no functions.",
+        text="Every token sequence up to 5 (quick) / 6 (thorough) tokens and every hostile character string up to 4 / 5 characters through ron encode -> Node decode (Ok trees equal, Err messages equal), and every context reachable by histories of depth 2 / 3 over set_value (3 names x 28 values of all types incl. signed zero, subnormals, infinities, NaN, nested tuples, hostile strings), clear, set_function, switch, expression assignments: same variables bit-exactly, same switch, no functions. Variable names and strings that collide with the vocabulary of the serialized form (field names, variant names, `inf`, `NaN`, `true`, `()`) are round-tripped bare, in tuples and in contexts; a deserialized tree must equal the precompiled one by PartialEq, Debug, Display and behaviour.",
         note="Trusted: ron 0.8.1 (a float or string enters only if ron alone round-trips it). If the harness stops compiling on the Serialize/Deserialize bounds of HashMapContext/Value while evalexpr compiles, the driver reports that as the violation.",
         design_ref="DESIGN.md section 4, C16",
     ),
